@@ -41,6 +41,16 @@ def step (_ : Unit) (op impl : String) : Unit × DrvOut :=
   match words op with
   | "reset" :: _ => ((), { model := "ok" })
   | "reload" :: _ => ((), { model := "ok" })
+  | ["coreexclude", _srv] =>
+    -- real Core, authMethod http with a webhook that refuses everybody; the administrative actions are removed from
+    -- authHTTPExclude by a hot reload: afterwards nobody is admitted, the answer must be the 401
+    let spec :=
+      if impl == "unavailable" then "ok"
+      else match words impl with
+        | [_, a] => if a == "after=401" then "ok"
+                    else "FAIL after the action was removed from authHTTPExclude at run time the request is still served without the external authenticator's consent (" ++ a ++ ")"
+        | _ => "FAIL unparsable implementation answer: " ++ impl
+    ((), { model := "-", spec := spec })
   | ["routes", s] =>
     match parseSrv s >>= factsOf with
     | some f =>
